@@ -507,5 +507,115 @@ theorem raw_length (i f : List Nat) :
       = i.length / 9 * 4 + W.dig2bytesSpec (i.length % 9) + f.length / 9 * 4 + W.dig2bytesSpec (f.length % 9) := by
   simp [W.decIntBytes, W.decFracBytes, groups_length]; omega
 
+/-! ### the whole decoder on the writer's bytes -/
+
+theorem dig2_spec : ∀ a, a < 9 → M.dig2 a = .ok (W.dig2bytesSpec a) := by decide
+
+theorem decimalBytes_eq (data : Bytes) (pos md : Nat) :
+    M.decimalBytes data pos md =
+      if md / 256 < md % 256 then .panic else
+      M.dig2 (md / 256 - md % 256 - (md / 256 - md % 256) / 9 * 9) >>= fun ib =>
+      M.dig2 (md % 256 - md % 256 / 9 * 9) >>= fun fb =>
+      data.slice pos (pos + ((md / 256 - md % 256) / 9 * 4 + ib + md % 256 / 9 * 4 + fb)) >>= fun d0 =>
+      d0.get 0 >>= fun first =>
+      decTail (if first.toNat / 128 % 2 == 0 then ((first ^^^ 0x80) :: d0.drop 1).map (· ^^^ 0xff)
+                else (first ^^^ 0x80) :: d0.drop 1)
+        (if first.toNat / 128 % 2 == 0 then [45] else [])
+        ((md / 256 - md % 256) / 9) ib (md % 256 / 9) fb (md % 256 - md % 256 / 9 * 9) (md % 256)
+        ((md / 256 - md % 256) / 9 * 4 + ib + md % 256 / 9 * 4 + fb) := by
+  rfl
+
+theorem decimalBytes_enc (p s : Nat) (hp : 1 ≤ p ∧ p ≤ 65) (hs : s ≤ 30 ∧ s ≤ p) (neg : Bool) (i f : List Nat)
+    (hil : i.length = p - s) (hfl : f.length = s) (hid : ∀ d ∈ i, d < 10) (hfd : ∀ d ∈ f, d < 10)
+    (rest : Bytes) :
+    M.decimalBytes (W.decimalBytes neg i f ++ rest) 0 (p * 256 + s)
+      = .ok ((if neg then [45] else []) ++ intText i ++ (if f.isEmpty then [] else [46] ++ W.digitsText f),
+             (W.decimalBytes neg i f).length) := by
+  have hdiv : (p * 256 + s) / 256 = p := by omega
+  have hmod : (p * 256 + s) % 256 = s := by omega
+  have hlt : ¬ p < s := by omega
+  have hx1 : p - s - (p - s) / 9 * 9 = (p - s) % 9 := by omega
+  have hx2 : s - s / 9 * 9 = s % 9 := by omega
+  obtain ⟨b, bs, hraw, hb⟩ := raw_topClear i f hid hfd (by omega)
+  have hrl := raw_length i f
+  have htail := fun txt0 l => decTail_raw i f hid hfd txt0 l
+  rw [hraw, hil, hfl] at hrl
+  rw [hraw, hil, hfl] at htail
+  have henc : W.decimalBytes neg i f
+      = if neg then ((b ^^^ 0x80) :: bs).map (· ^^^ 0xff) else (b ^^^ 0x80) :: bs := by
+    unfold W.decimalBytes
+    simp only [hraw]
+  rw [decimalBytes_eq]
+  simp only [hdiv, hmod, hlt, if_false, hx1, hx2]
+  rw [dig2_spec _ (by omega), dig2_spec _ (by omega)]
+  simp only [Res.ok_bind]
+  cases neg with
+  | false =>
+    simp only [Bool.false_eq_true, if_false] at henc ⊢
+    rw [henc, slice_head _ _ _ (by simp at hrl ⊢; omega)]
+    simp only [Res.ok_bind, Bytes.get, List.getElem?_cons_zero, List.drop_succ_cons, List.drop_zero,
+      sign_pos b hb, Bool.false_eq_true, if_false, xor_xor]
+    rw [htail]
+    simp at hrl ⊢
+    omega
+  | true =>
+    simp only [if_true] at henc ⊢
+    rw [henc, slice_head _ _ _ (by simp at hrl ⊢; omega)]
+    simp only [Res.ok_bind, Bytes.get, List.map_cons, List.getElem?_cons_zero, List.drop_succ_cons, List.drop_zero,
+      sign_neg b hb, if_true, xor4, map_xor_xor]
+    rw [htail]
+    simp at hrl ⊢
+    omega
+
+/-! ### dispatch, length, text -/
+
+theorem cellBytes_246 (E : M.Ext) (data : Bytes) (pos md : Nat) (u : Bool) :
+    M.cellBytes E data pos 246 md u = M.decimalBytes data pos md := by
+  unfold M.cellBytes
+  simp
+
+theorem cellLength_246 (data : Bytes) (pos md : Nat) : M.cellLength data pos 246 md = M.decimalLen md := by
+  unfold M.cellLength
+  have : M.lookup Facts.cellLengthFixed 246 = none := by decide
+  simp [this]
+
+theorem enc_length (neg : Bool) (i f : List Nat) :
+    (W.decimalBytes neg i f).length = (W.decIntBytes i ++ W.decFracBytes f).length := by
+  unfold W.decimalBytes
+  cases W.decIntBytes i ++ W.decFracBytes f with
+  | nil => cases neg <;> simp
+  | cons b bs => cases neg <;> simp
+
+theorem decimalLen_enc (p s : Nat) (hs : s ≤ 30 ∧ s ≤ p) (neg : Bool) (i f : List Nat)
+    (hil : i.length = p - s) (hfl : f.length = s) :
+    M.decimalLen (p * 256 + s) = .ok (W.decimalBytes neg i f).length := by
+  have hdiv : (p * 256 + s) / 256 = p := by omega
+  have hmod : (p * 256 + s) % 256 = s := by omega
+  have hlt : ¬ p < s := by omega
+  have hx1 : p - s - (p - s) / 9 * 9 = (p - s) % 9 := by omega
+  have hx2 : s - s / 9 * 9 = s % 9 := by omega
+  unfold M.decimalLen
+  simp only [hdiv, hmod, hlt, if_false, hx1, hx2]
+  rw [dig2_spec _ (by omega), dig2_spec _ (by omega), enc_length, raw_length, hil, hfl]
+  rfl
+
+theorem text_dec (md : Nat) (lc f32 f64 : Nat → Bytes) (neg : Bool) (i f : List Nat) :
+    W.text md lc f32 f64 (.dec neg i f)
+      = (if neg then [45] else []) ++ intText i ++ (if f.isEmpty then [] else [46] ++ W.digitsText f) := rfl
+
+theorem intText_ne_nil (i : List Nat) : intText i ≠ [] := by
+  by_cases h : W.stripLeadingZeros i = []
+  · rw [intText_nil i h]; simp
+  · rw [intText_ne i h]
+    cases hc : W.stripLeadingZeros i with
+    | nil => exact absurd hc h
+    | cons a as => simp [W.digitsText]
+
+theorem intText_value (i : List Nat) (hi : ∀ d ∈ i, d < 10) : decValue (intText i) = some (W.digitsVal i) := by
+  by_cases h : W.stripLeadingZeros i = []
+  · rw [intText_nil i h, (strip_nil_iff i).mp h]; decide
+  · have hv : W.digitsVal i ≠ 0 := fun e => h ((strip_nil_iff i).mpr e)
+    rw [intText_ne i h, ← natDec_dv i hi hv, decValue_natDec]
+
 end C11
 end GV
